@@ -318,6 +318,26 @@ def evaluate(case):
                             f"registered ({mode}) result differs from plain evaluation: {why}\n{src}argument keys "
                             f"{[a['keys'] for a in case['args']]} values {[a['vals'] for a in case['args']]}",
                             observed=kd.show(ge), expected=kd.show(pe), source=src)
+        if mode == "numeric" and must_equal:
+            # other functions registered later under the SAME Python names (a redefinition, a closure from the same factory) and
+            # compiled for the same key patterns must not change what the first ones compute
+            try:
+                for nm, nargs_ in [("f", case["nargs"])] + [(f"h{j}", 2) for j in range(case["ncallees"])]:
+                    g3 = {}
+                    exec(f"def {nm}({', '.join('abc'[:nargs_])}):\n    return a - a * 3\n", g3)
+                    decoy = alg.register(g3[nm])
+                    decoy(*(args_for(alg) * 2)[:nargs_])
+            except Exception as e:
+                counters["decoy-raised:" + type(e).__name__] = 1
+            st2, got2 = _run(reg, args_for(alg))
+            if st2 == "exc":
+                raise Violation("registered-equals-plain", mode, f"after registering other functions under the same names the registered "
+                                f"function raised {got2}\n{src}", exc=got2.split(":")[0], source=src)
+            ok, why = kd.elem_equal(_elem(got2, "registered numeric"), pe)
+            if not ok:
+                raise Violation("registered-equals-plain", mode, f"after other functions were registered under the same Python names "
+                                f"(f, h0, h1) and compiled for the same key patterns, the first registered function returns a different "
+                                f"result: {why}\n{src}", source=src)
     nontrivial = feats["nodes"] >= 2 and (feats["number"] or feats["pow"] or feats["coef"] or feats["call"])
     return Info(bool(nontrivial), labels, key, counters, sample={"source": src})
 
@@ -345,7 +365,7 @@ def _pred_symbolic_norm(case, v, **_):
 def _pred_symbolic_coef_left(case, v, **_):
     """register(symbolic=True): a coefficient (RationalPolynomial) as LEFT operand of * or + with a multivector on the right is
     swallowed by RationalPolynomial.__mul__/__add__ (wraps the multivector as a coefficient) -> AttributeError/TypeError."""
-    return (v.op == "symbolic" and v.data.get("exc") in ("AttributeError", "TypeError")
+    return (v.op == "symbolic" and v.data.get("exc") in ("AttributeError", "TypeError", "SympifyError")
             and any(n[0] == "coef" and n[3] in ("c*t", "c+t") for n in _nodes(case["tree"])))
 
 
